@@ -1,4 +1,4 @@
-(** Model of src/epd2in9bc/mod.rs — STUB, not yet transcribed. *)
+(** Model of src/epd2in9bc/mod.rs. *)
 From Coq Require Import List NArith Bool.
 From EPD Require Import Iface Ops Drv.Luts.
 Import ListNotations.
@@ -8,11 +8,124 @@ Open Scope m_scope.
 Module Epd2in9bc.
 Definition WIDTH : N := 128.
 Definition HEIGHT : N := 296.
+Definition DEFAULT_BACKGROUND_COLOR : N := cWhite.
+Definition NUM_DISPLAY_BITS : N := WIDTH / 8 * HEIGHT.
+Definition IS_BUSY_LOW := true.
+Definition VCOM_DATA_INTERVAL : N := 0x07.
+Definition WHITE_BORDER : N := 0x70.
+Definition BLACK_BORDER : N := 0x30.
+Definition CHROMATIC_BORDER : N := 0xb0.
+Definition FLOATING_BORDER : N := 0xF0.
 
-Definition init : M unit := ret tt.
+(** Color::get_byte_value (the colour field is a [Color] here) *)
+Definition get_byte_value (c : N) : N := if c =? cWhite then 0xff else 0x00.
 
-Definition exec (k : N) (o : op) : option (M rval) := None.
+Definition wait_until_idle : M unit := wait_idle IS_BUSY_LOW.
+
+(** the private wrappers of the driver *)
+Definition command (c : N) : M unit := cmd c.
+Definition send_data (l : list N) : M unit := data l.
+Definition cmd_with_data' (c : N) (l : list N) : M unit := cmd_with_data c l.
+
+Definition send_resolution : M unit :=
+  let w := WIDTH in
+  let h := HEIGHT in
+  command 0x61 ;;
+  send_data [u8 w] ;;
+  send_data [u8 (shr h 8)] ;;
+  send_data [u8 h].
+
+Definition init : M unit :=
+  reset 10000 10000 ;;
+  cmd_with_data 0x06 [0x17; 0x17; 0x17] ;;
+  command 0x04 ;;
+  delay_us 5000 ;;
+  wait_until_idle ;;
+  cmd_with_data' 0x00 [0x8F] ;;
+  cmd_with_data' 0x50 [bor WHITE_BORDER VCOM_DATA_INTERVAL] ;;
+  send_resolution ;;
+  cmd_with_data' 0x82 [0x0A] ;;
+  wait_until_idle.
+
+(** [black] / [chromatic] is buffer argument [a] of call [k] *)
+Definition update_achromatic_frame (k a len : N) : M unit :=
+  cmd 0x10 ;;
+  data_e (DArg k a 0 len).
+
+Definition update_chromatic_frame (k a len : N) : M unit :=
+  cmd 0x13 ;;
+  data_e (DArg k a 0 len) ;;
+  wait_until_idle.
+
+Definition update_color_frame (k l1 l2 : N) : M unit :=
+  update_achromatic_frame k 0 l1 ;;
+  update_chromatic_frame k 1 l2.
+
+Definition sleep : M unit :=
+  cmd_with_data 0x50 [bor FLOATING_BORDER VCOM_DATA_INTERVAL] ;;
+  command 0x02 ;;
+  wait_until_idle ;;
+  cmd_with_data' 0x07 [0xA5].
+
+Definition update_frame (k len : N) : M unit :=
+  cmd 0x10 ;;
+  data_e (DArg k 0 0 len) ;;
+  s <- get ;;
+  let color := get_byte_value (bg s) in
+  cmd 0x13 ;;
+  data_x_times color NUM_DISPLAY_BITS ;;
+  wait_until_idle.
+
+(** body is just [Ok(())] *)
+Definition update_partial_frame (k len x y w h : N) : M unit := ret tt.
+
+Definition display_frame : M unit :=
+  command 0x12 ;;
+  wait_until_idle.
+
+Definition update_and_display_frame (k len : N) : M unit :=
+  update_frame k len ;;
+  display_frame.
+
+Definition clear_frame : M unit :=
+  send_resolution ;;
+  let color := get_byte_value DEFAULT_BACKGROUND_COLOR in
+  cmd 0x10 ;;
+  data_x_times color NUM_DISPLAY_BITS ;;
+  cmd 0x13 ;;
+  data_x_times color NUM_DISPLAY_BITS ;;
+  wait_until_idle.
+
+Definition set_lut (r : option N) : M unit := ret tt.
+
+Definition set_border_color (color : N) : M unit :=
+  let border := if color =? cBlack then BLACK_BORDER
+                else if color =? cWhite then WHITE_BORDER
+                else CHROMATIC_BORDER in
+  cmd_with_data' 0x50 [bor border VCOM_DATA_INTERVAL].
+
+Definition exec (k : N) (o : op) : option (M rval) :=
+  match o with
+  | OSleep => unit_ sleep
+  | OWakeUp => unit_ init
+  | OSetBg c => unit_ (modify (set_bg c))
+  | OGetBg => Some (s <- get ;; ret (RColor (bg s)))
+  | OWidth => Some (ret (RNum WIDTH))
+  | OHeight => Some (ret (RNum HEIGHT))
+  | OUpdateFrame len => unit_ (update_frame k len)
+  | OUpdatePartial len x y w h => unit_ (update_partial_frame k len x y w h)
+  | ODisplay => unit_ display_frame
+  | OUpdateAndDisplay len => unit_ (update_and_display_frame k len)
+  | OClear => unit_ clear_frame
+  | OSetLut r => unit_ (set_lut r)
+  | OWaitIdle => unit_ wait_until_idle
+  | OUpdateColor l1 l2 => unit_ (update_color_frame k l1 l2)
+  | OUpdateAchromatic len => unit_ (update_achromatic_frame k 0 len)
+  | OUpdateChromatic len => unit_ (update_chromatic_frame k 0 len)
+  | OSetBorder c => unit_ (set_border_color c)
+  | _ => None
+  end.
 
 Definition drv (ft : feat) : driver :=
-  mkDriver WIDTH HEIGHT true d0 init exec.
+  mkDriver WIDTH HEIGHT true (mkD DEFAULT_BACKGROUND_COLOR 0 false false 0 None) init exec.
 End Epd2in9bc.
